@@ -49,6 +49,10 @@ Fixpoint distinct_names (l : list string) : bool :=
   | x :: r => negb (existsb (String.eqb x) r) && distinct_names r
   end.
 
+(* heuristic 3 of full_simplify: every group target it constructs has integer exponents *)
+Definition h3_ints_b (tbl : table Qc) (res : resolved (T := Qc)) (keys : list skey) (gs : list (list ufactor)) : bool :=
+  forallb (fun g => match h3_group QcN tbl res keys g with Ok (t, _) => unit_int t | Err _ => true end) gs.
+
 (* ---------------------------------------------------------------- printing *)
 Definition show_pfx (p : prefix) : string :=
   match p with Metric e => "M/" ++ show_Z e | Binary e => "B/" ++ show_Z e end.
@@ -149,10 +153,12 @@ Section Run.
   Definition r_cmp (a b : quantity) : string :=
     guard [q_unit a; q_unit b] (show_ord (pcmp QcN tbl res keys a b)).
   Definition r_simp (tol impl : Q) (a : quantity) : string :=
-    match full_simplify QcN tbl res keys a with
-    | Ok q => guard [q_unit a; q_unit q] (show_q E (Q2Qc tol) (Q2Qc impl) q)
-    | Err e => guard [q_unit a] (show_err e)
-    end.
+    if h3_ints_b tbl res keys (chunk_by_key keys (canon keys (q_unit a))) then
+      match full_simplify QcN tbl res keys a with
+      | Ok q => guard [q_unit a; q_unit q] (show_q E (Q2Qc tol) (Q2Qc impl) q)
+      | Err e => guard [q_unit a] (show_err e)
+      end
+    else "OOS".
   Definition r_base (tol impl : Q) (u : unit) : string :=
     guard [u] (let '(b, f) := to_base QcN tbl res u in
                (if close (Q2Qc tol) f (Q2Qc impl) then "ok" else "val=" ++ show_qc f) ++ ":" ++ show_unit E b).
